@@ -261,6 +261,8 @@ def read_source(path=None):
   except SyntaxError as e:
     raise TranslateError("lazy_analysis.py does not parse: %s" % e)
   table_node = tw = ts = gen = None
+  soft = []      # errors about the surrounding code: the tie is broken, but table and templates are still translated,
+                 # so that Gen_Windows.v reflects the CURRENT table and the search for a failing input can go on
   math_names, division = set(), False
   tops = []
   for st in mod.body:
@@ -295,12 +297,12 @@ def read_source(path=None):
   if table_node is None or tw is None or ts is None or gen is None:
     raise TranslateError("table / templates / _generate_window_strategies not found")
   if tops != EXPECTED_TOP:
-    raise TranslateError("module-level statements about window/wsymm changed: %r" % (tops,))
+    soft.append("module-level statements about window/wsymm changed: %r" % (tops,))
   body = [s for s in gen.body if not (isinstance(s, ast.Expr) and isinstance(s.value, ast.Constant))]
   got = "\n".join(ast.unparse(s) for s in body)
   if got != EXPECTED_GENERATE or gen.args.args or gen.decorator_list:
-    raise TranslateError("_generate_window_strategies changed (the model gen_strategies in C14/Model.v mirrors the "
-                         "old text); now:\n" + got)
+    soft.append("_generate_window_strategies changed (the model gen_strategies in C14/Model.v mirrors the "
+                "old text); now:\n" + got)
   if not isinstance(table_node, ast.List):
     raise TranslateError("window._content_generation_table is not a list display")
   rows = []
@@ -354,7 +356,7 @@ def read_source(path=None):
       raise TranslateError("%s: formula uses alpha but params_def does not declare it" % what)
     rows.append({"names": names, "formula": formula, "formula_src": formula_src, "distinct": distinct,
                  "default": default})
-  return {"rows": rows,
+  return {"soft_errors": soft, "rows": rows,
           "tmpl_window": parse_template(tw, "window._code_template"),
           "tmpl_wsymm": parse_template(ts, "wsymm._code_template")}
 
@@ -401,7 +403,7 @@ def translate(write=True):
     if old != text:
       with open(OUT, "w") as f:
         f.write(text)
-  return d, []
+  return d, ["C14 translator: " + e for e in d.get("soft_errors", [])]
 
 
 if __name__ == "__main__":
